@@ -248,3 +248,43 @@ def run(repo: Repo, rep: Report) -> None:
             rep.ob("C20.d-request-args-isolated", con, "SPARQLConnector." + m, st, ok,
                    "%s copy of the shared kwargs; %d nested mutation(s)" % (kind, len(nested)) if ok else
                    "%s is a %s of self.kwargs and its nested dict is mutated (%s): the change persists into later requests" % (nm, kind, norm(nested[0])[:60]), node=st)
+
+    # ------------------------------------------------------------------ (e)
+    rep.rule("C20.e-no-stale-loop-variable",
+             "inside a loop of a SPARQLStore/SPARQLUpdateStore method, no name is read that is bound only as the target of an earlier, already "
+             "finished loop of the same function (it would hold that loop's last element for every iteration - e.g. every batch sent to one graph)", floor=1)
+    from vlib.loops import names as _names
+
+    for cls, ms in (("SPARQLStore", base), ("SPARQLUpdateStore", upd)):
+        for m, f in ms.items():
+            top = [n for n in f.body]
+            loops_ = [n for n in own_nodes(f) if isinstance(n, ast.For)]
+            if len(loops_) < 2:
+                continue
+            params = {a.arg for a in f.args.args}
+            for i, l2 in enumerate(sorted(loops_, key=lambda n: n.lineno)):
+                inner = {id(x) for x in ast.walk(l2)}
+                earlier = [l1 for l1 in loops_ if l1.lineno < l2.lineno and id(l2) not in {id(x) for x in ast.walk(l1)}]
+                if not earlier:
+                    continue
+                bound_elsewhere = set(params)
+                for n in own_nodes(f):
+                    if isinstance(n, ast.Name) and isinstance(n.ctx, ast.Store):
+                        # bound by something that is not an earlier loop's target
+                        owner_loop = None
+                        for l1 in earlier:
+                            if any(n is x for x in ast.walk(l1.target)):
+                                owner_loop = l1
+                        if owner_loop is None:
+                            bound_elsewhere.add(n.id)
+                stale = set()
+                for l1 in earlier:
+                    for nm in _names(l1.target, ast.Store):
+                        if nm in bound_elsewhere:
+                            continue
+                        reads = [x for x in ast.walk(l2) if isinstance(x, ast.Name) and x.id == nm and isinstance(x.ctx, ast.Load)]
+                        # comprehension-local rebinding inside l2 hides it
+                        if reads and nm not in _names(l2.target, ast.Store):
+                            stale.add(nm)
+                rep.ob("C20.e-no-stale-loop-variable", mod, "%s.%s" % (cls, m), "for %s in %s" % (norm(l2.target), norm(l2.iter)[:40]), not stale,
+                       "uses its own loop variables" if not stale else "the loop reads %s, which is only bound by an earlier loop that has finished: every iteration sees that loop's last element" % sorted(stale), node=l2)
